@@ -15,6 +15,12 @@ CHECKS = {
         text="For every accepted instance of the schedule family (corpus procedures x all introspected scheduling ops x generated argument candidates, plus depth-2 chains) z3 decides, for ALL inputs within the stated bounds (sizes<=N, index args in a box, arbitrary real buffer contents and configuration), that original and derived procedure leave identical argument buffers and configuration outside the reported set. Program/schedule quantifiers are covered by the stated family, inputs by the solver.",
         note="Trusted: z3, the loopsym reference semantics (DESIGN App. A, validated against compiled C by C02's encoder validation), reals for floats. Bounds: sizes<=3 (quick)/4 (thorough), unroll cap, statement budget; instances exceeding them are counted as skipped.",
         design="5/C01"),
+    "C02": dict(
+        category=TV, engine="llsym",
+        technique="symbolic execution of the LLVM IR of the emitted C (clang-14 -O0 -> opt -always-inline -mem2reg -> own IR interpreter with path forking and z3) against loopsym on the same LoopIR, sharing the initial memory; final memory compared address by address by z3; counterexamples replayed natively (gcc, ASan/UBSan)",
+        text="For every corpus procedure as written and after one accepted layout/memory/precision/window/loop schedule: the real backend's C is compiled by clang (with -Werror for pointer/qualifier/implicit-declaration problems; a compile error is itself a violation), every path of its IR is executed for every size valuation within bounds, and z3 decides that every element of every argument buffer (at every address of the allocation, so 'everything else unchanged' is included), every scalar by reference and every context-struct field ends in the state the LoopIR semantics prescribes -- for all buffer contents, index/bool arguments, window base offsets and strides, and initial configuration.",
+        note="Sizes are case-split by solver enumeration (<=3 quick, <=4 thorough); reals for floats; libm functions uninterpreted; intrinsic models are hand-written and listed in evidence; cells the reference leaves undefined are not judged.",
+        design="5/C02"),
     "C03": dict(
         category=MC, engine="loopsym",
         technique="bounded model checking of every front-end-accepted source (corpus + one-edit source mutants): loopsym emits every safety obligation, z3 searches for an input satisfying the program's assertions that violates one; replay by a solver-free interpreter",
@@ -39,6 +45,12 @@ CHECKS = {
         text="After every scheduling call of the sweep, successful or failing, every procedure alive before the call (source, corpus sub-procedures) is fingerprinted again; any change is decided behaviourally by z3 (old vs new encoding, all inputs within bounds); cursors created before the call must still resolve to the identical node objects; printed text must be byte-identical.",
         note="Behavioural clause is solver-decided; print/cursor identity are concrete observations. Stale analysis caches and cross-process effects are outside.",
         design="5/C07"),
+    "C08": dict(
+        category=MC, engine="llsym",
+        technique="same llsym exploration as C02; every memory access, signed nsw arithmetic, division, shift, llvm.assume, malloc/free and function return emits an obligation that z3 must prove under the path condition; counterexamples replayed natively under ASan/UBSan",
+        text="On every explored path of the emitted C's IR: allocation alive (no use after free), 0 <= offset and offset+size <= allocation size (no out-of-bounds), alignment to the element, no signed overflow in nsw index arithmetic, no division by zero, shift amounts in range, EXO_ASSUME conditions hold, free only of live malloc'd base pointers exactly once, and every malloc'd buffer freed before return.",
+        note="malloc never returns NULL (allocation failure outside C08); sizes < 2^31; writes through const-qualified parameters are caught as clang errors (C02 by-product) rather than by provenance tracking.",
+        design="5/C08"),
     "C09": dict(
         category=MC, engine="loopsym",
         technique="bounded model checking over pairs of iterations: sequential symbolic execution with an access log; for every parallel-loop instance z3 searches for two different iterations touching the same location with at least one write/reduce; replay by a solver-free interpreter with an access log",
@@ -88,7 +100,7 @@ NOT_APPLICABLE = [
     ("C18", "Quantifies over CPython hash seeds and process histories; encoding it needs a model of the interpreter's dict/set implementation, not of Exo (DESIGN 6)."),
 ]
 
-PENDING = {p: 'check under construction in this round (design in DESIGN.md section 5); not claimed until its command exists' for p in ['C02','C06','C08','C14','C16']}
+PENDING = {p: 'check under construction in this round (design in DESIGN.md section 5); not claimed until its command exists' for p in ['C06','C14','C16']}
 
 
 def main():
@@ -121,6 +133,7 @@ def main():
         },
         "engines": [
             {"name": "crosshair+z3", "path": "vlib/check_c13.py", "serves_properties": ["C13", "C06", "C16"], "kind_free_text": "CrossHair 0.0.110 harnesses generated per run against the real Python kernels"},
+            {"name": "llsym", "path": "vlib/llsym/", "serves_properties": ["C02", "C08", "C14"], "kind_free_text": "parser + path-forking symbolic executor for clang-14 -O0 LLVM IR of the emitted C, z3 backend, native replay with sanitizers"},
             {"name": "py2smt", "path": "vlib/py2smt.py", "serves_properties": ["C11"], "kind_free_text": "Python-AST -> z3 interpreter for exo/core/proc_eqv.py"},
             {"name": "exprtv", "path": "vlib/exprtv.py", "serves_properties": ["C12", "C13"], "kind_free_text": "lock-step expression pairing + unbounded LIA queries"},
             {"name": "loopsym", "path": "vlib/loopsym.py", "serves_properties": ["C01", "C03", "C04", "C05", "C07", "C09", "C10", "C12", "C17", "C19"], "kind_free_text": "bounded symbolic interpreter of Exo LoopIR into z3 + solver-free replay interpreter"},
